@@ -203,9 +203,22 @@ theorem traversal_from_source :
     MJ.Gen.asConstArms.all (foldRules.contains ·) = true ∧
     MJ.Gen.asConstArms.contains "Const" = true ∧
     sameSet MJ.Gen.exprVariants (foldRules ++ unfoldedVariants) = true ∧
-    MJ.Gen.codegenSpecials.all (["fold-first", "neg-const-shortcut", "static-kwargs"].contains ·) = true ∧
+    MJ.Gen.codegenSpecials.all (["fold-first", "neg-const-shortcut", "static-kwargs", "static-kwargs-off-for-caller",
+      "caller-forces-kwargs", "caller-appended-last"].contains ·) = true ∧
     MJ.Gen.codegenSpecials.contains "fold-first" = true ∧
     MJ.Gen.codegenAsConstUses = 1 := by
+  decide
+
+/-- Who reaches the const-sensitive keyword-argument code, regenerated from `codegen.rs`:
+    `compile_call_args` is called with a caller only by `compile_call` (which forwards its own),
+    filters, tests and the `loop(...)` fast path pass `None`; `compile_call` gets `Some(caller)` only
+    from `compile_call_block`, `None` from expressions and `{% do %}`.  So the call-block form
+    modelled by `evalCallBlockC` is the only place where static keyword arguments meet a caller; a
+    new call site with a caller breaks this theorem. -/
+theorem call_sites_from_source :
+    MJ.Gen.callArgsSites.all (fun r => r.2.getLast? == some "None" || (r.1 == "compile_call" && r.2.getLast? == some "caller")) = true ∧
+    MJ.Gen.callSites.all (fun r => r.2 == ["None"] || r == ("compile_call_block", ["Some"])) = true ∧
+    MJ.Gen.callSites.contains ("compile_call_block", ["Some"]) = true := by
   decide
 
 /-- the model's folder dispatches over the table: a node other than a plain constant is folded only
